@@ -608,6 +608,13 @@ func (e *Exec) evalCall(env *Env, x *ast.CallExpr) Val {
 			return env.fail("fresh() needs a pre-state")
 		}
 		return vBool(sAnd(sx(">", v.t(), env.old.st.top), sx("<=", v.t(), env.st.top)))
+	case "thisiter":
+		// allocated since the innermost enclosing loop head was last passed (a new object per iteration)
+		v := arg(0)
+		if e.loopTop == "" {
+			return env.fail("thisiter() outside a loop")
+		}
+		return vBool(sAnd(sx(">", v.t(), e.loopTop), sx("<=", v.t(), env.st.top)))
 	case "allocated":
 		v := arg(0)
 		return vBool(sAnd(sx("<=", "0", v.t()), sx("<=", v.t(), env.st.top)))
